@@ -283,10 +283,12 @@ def _forgery_strategy():
     """One signed multi-gram memo of a victim, 1-3 grams correctly signed by another party for the victim's memo id,
     delivered right after the victim's zeroth gram or before everything."""
     text = st.text("abcdefgh ", min_size=50, max_size=200)
+    # the victim is signer 1; forgers are the other known signers and the unknown one.  Codes that carry their own signer
+    # id (auth zeroth grams, signed acks) are the ones a foreign signer can get verified, so they are weighted up.
     memo = st.fixed_dictionaries({"code": st.sampled_from([1, 3]), "curt": st.booleans(), "extra": st.integers(0, 30),
-                                  "signer": st.integers(0, 2), "text": text})
-    fg = st.tuples(st.just("forge"), st.integers(0, 9), st.integers(0, 4),
-                   st.binary(min_size=1, max_size=8).map(lambda b: b"EVIL" + b), st.integers(0, 3)).map(list)
+                                  "signer": st.just(1), "text": text})
+    fg = st.tuples(st.just("forge"), st.sampled_from([9, 9, 9, 2, 6, 2, 6, 3, 7, 8, 0, 1, 4, 5]), st.integers(0, 3),
+                   st.binary(min_size=1, max_size=8).map(lambda b: b"EVIL" + b), st.sampled_from([0, 2, 3, 0, 2])).map(list)
     muts = st.lists(st.tuples(st.booleans(), st.integers(0, 5), fg).map(list), min_size=1, max_size=3)
     return st.fixed_dictionaries({"authic": st.just(True), "memos": st.lists(memo, min_size=1, max_size=1), "muts": muts,
                                   "raw": st.just([]), "order": st.just([]),
@@ -297,4 +299,4 @@ def _forgery_strategy():
 def searches(tier):
     q = tier == "quick"
     return [("datagrams", _strategy(), 2500 if q else 30000),
-            ("forgeries", _forgery_strategy(), 800 if q else 8000)]
+            ("forgeries", _forgery_strategy(), 1500 if q else 12000)]
